@@ -2,7 +2,7 @@
 import os
 
 from . import core
-from .rules import stdio, cert, mark, exact, optstore, inval, idx, atomic, own, tokens, idxclass, copy, pair, structfree, buf, div, counter, sentinel, appendinit, verdict, basismap, zerotol, escape, lenclass, djsym, ndet, useb4check, norms, opencheck, shell, esolver, errlost, rescan, certdep, neverset, fmt, defaults, scratch, fullscan, slotleak, floatidx, sensemap, trunc, vtypezero, allockind, intdiv, strscan, localfield, rawidx, argcap, staleptr, condalloc, lpstate
+from .rules import stdio, cert, mark, exact, optstore, inval, idx, atomic, own, tokens, idxclass, copy, pair, structfree, buf, div, counter, sentinel, appendinit, verdict, basismap, zerotol, escape, lenclass, djsym, ndet, useb4check, norms, opencheck, shell, esolver, errlost, rescan, certdep, neverset, fmt, defaults, scratch, fullscan, slotleak, floatidx, sensemap, trunc, vtypezero, allockind, intdiv, strscan, localfield, rawidx, argcap, staleptr, condalloc, lpstate, vstattype
 from .effects import Effects
 
 FIX = os.path.join(os.path.dirname(os.path.abspath(__file__)), "fixtures")
@@ -194,6 +194,7 @@ def c05_rules():
         lambda prog, tier: djsym.run_nbsym(prog),
         lambda prog, tier: djsym.run_keepcache(prog),
         lambda prog, tier: inval.run_skipgate(prog),
+        lambda prog, tier: vstattype.run(prog),
         lambda prog, tier: vtypezero.run(prog),
         lambda prog, tier: escape.run_extcopy(prog),
     ]
@@ -467,6 +468,7 @@ PROPS = {
         "rules": [lambda prog, tier: verdict.run(prog),
                   lambda prog, tier: localfield.run(prog, shared_eff(prog), scope=lambda f: f.unit.endswith("qsopt_ex/exact.c") or "fct_mpq" in f.unit or "basis_mpq" in f.unit, floor=8),
                   lambda prog, tier: vtypezero.run(prog),
+                  lambda prog, tier: vstattype.run(prog),
                   lambda prog, tier: basismap.run(prog),
                   lambda prog, tier: djsym.run(prog),
                   lambda prog, tier: zerotol.run(prog, shared_eff(prog), "simplex"),
@@ -659,7 +661,9 @@ _ADD = {
                            "coefficient before the loop iteration / function completes; (R-SENSEMAP) ILLlib_addrow, ILLlp_add_logicals and ILLlib_chgsense "
                            "give the logical column the same coefficient sign for every sense letter (value enumeration through the switch / if forms); (R-KEEPCACHE) the test of the cached dual "
                            "value that lets ILLlib_delrows keep the cached solution rejects both signs; (R-SKIPGATE) a solve entry point answers from the "
-                           "cache only under tests of p->basis, p->cache and p->factorok."},
+                           "cache only under tests of p->basis, p->cache and p->factorok; (R-VSTATTYPE) the simplex driver reads the non-basic statuses "
+                           "only after a pass that sets each of them from the variable's type (a bound made infinite since the last solve, or a "
+                           "caller's status letter that does not fit the bounds, cannot enter the computation)."},
     "C07": {"technique": "; computed simplex-state fields of lpinfo + unguarded-read summaries + dominance of the API hand-over by the factorok test",
             "explanation": " (R-LPSTATE) the index-taking calls that work on the simplex data of the problem (tableau rows, pivot-in lists, basis "
                            "order) are refused in every lifecycle state in which p->lp does not hold the factored basis of the current problem "
@@ -697,7 +701,8 @@ _ADD = {
                          "index-space typing of subscripts in the raw-to-LP conversion"},
     "C12": {"explanation": " (R-VTYPEZERO) wherever the simplex chooses a non-basic status from the variable type (initial basis, singular-basis "
                            "repair) STAT_ZERO is reachable for a free variable only, so the basic solution of the returned basis takes every non-basic "
-                           "variable at one of its bounds. (R-LOCALFIELD) the verdict functions read no field of a local record that nothing wrote."},
+                           "variable at one of its bounds; (R-VSTATTYPE) a warm start reconciles the statuses of the supplied basis with the variable types before "
+                           "anything reads them. (R-LOCALFIELD) the verdict functions read no field of a local record that nothing wrote."},
     "C13": {"technique": "; control-dependence analysis of scratch-mark resets and dependency-counter updates on conditions over exact numbers; "
                          "re-point summaries of pointer fields (bottom-up) + path-sensitive staleness typestate of their local copies",
             "explanation": " (R-SCRATCH) in the sparse kernels no clearing of a scratch mark (lpinfo::iwork) and no update of a dependency counter "
